@@ -7,6 +7,19 @@ import math
 from hypothesis import strategies as st
 
 # ---------------------------------------------------------------------------
+# Unions
+
+
+@st.composite
+def pick(draw, *strategies):
+    """Union of strategies with the weights the argument list spells out (a strategy listed
+    twice is twice as likely).  st.one_of flattens nested unions - also through the filter/map
+    rewriting of unions - so that a composite listed next to a big union of leaves is hardly
+    ever drawn; an index drawn first keeps the branches apart."""
+    return draw(strategies[draw(st.integers(0, len(strategies) - 1))])
+
+
+# ---------------------------------------------------------------------------
 # JSON values
 
 TEXT_ALPHABET = st.characters(blacklist_categories=("Cs",))
@@ -24,8 +37,8 @@ interesting_text = st.sampled_from(
 def json_leaves(big_ints=False):
     ints = st.integers(-(2 ** 53), 2 ** 53)
     if big_ints:
-        ints = st.one_of(ints, st.integers(-(2 ** 80), 2 ** 80))
-    return st.one_of(
+        ints = pick(ints, st.integers(-(2 ** 80), 2 ** 80))
+    return pick(
         st.none(),
         st.booleans(),
         interesting_ints,
@@ -38,26 +51,28 @@ def json_leaves(big_ints=False):
 
 
 def json_keys(forbid_jsonclass=True):
-    keys = st.one_of(interesting_text, st.text(TEXT_ALPHABET, max_size=5),
+    keys = pick(interesting_text, st.text(TEXT_ALPHABET, max_size=5),
                      st.sampled_from(["a", "b", "id", "method", "params", "result", "error"]))
     if forbid_jsonclass:
         keys = keys.filter(lambda k: k != "__jsonclass__")
     else:
         # with class translation off the member is ordinary data
-        keys = st.one_of(keys, keys, keys, st.just("__jsonclass__"))
+        keys = pick(keys, keys, keys, st.just("__jsonclass__"))
     return keys
 
 
 def json_values(max_leaves=12, forbid_jsonclass=True, big_ints=False):
+    """Nested JSON values.  Built by explicit depth-limited composition rather than
+    st.recursive: the latter rejects every draw that exceeds max_leaves, and the rejections
+    of several values in one case compound until mostly trivial cases survive."""
     keys = json_keys(forbid_jsonclass)
-    return st.recursive(
-        json_leaves(big_ints),
-        lambda c: st.one_of(
-            st.lists(c, max_size=4),
-            st.dictionaries(keys, c, max_size=4),
-        ),
-        max_leaves=max_leaves,
-    )
+    leaves = json_leaves(big_ints)
+    depth = 2 if max_leaves <= 4 else 3
+    width = 2 if max_leaves <= 4 else 3
+    s = leaves
+    for _ in range(depth):
+        s = pick(leaves, leaves, leaves, st.lists(s, max_size=width), st.dictionaries(keys, s, max_size=width))
+    return s
 
 
 # ---------------------------------------------------------------------------
